@@ -1,0 +1,86 @@
+//go:build verif
+// +build verif
+
+package proc
+
+import (
+	"github.com/polynetwork/poly/common"
+	tx "github.com/polynetwork/poly/core/types"
+	tc "github.com/polynetwork/poly/txnpool/common"
+)
+
+// Verification-only accessors (build tag verif). Nothing here changes behaviour of the server; the functions
+// only read state or call the unexported functions the way the package itself calls them.
+
+// VerifIsValidSender is TxActor.isValidSender.
+func (ta *TxActor) VerifIsValidSender(txn *tx.Transaction) error { return ta.isValidSender(txn) }
+
+// VerifUpdatePermittedAddrMap is updatePermittedAddrMap (the refresh done at the top of handleTransaction).
+func VerifUpdatePermittedAddrMap() error { return updatePermittedAddrMap() }
+
+// VerifPermittedAddrs returns a copy of the process-wide permitted address map (entries whose value is true).
+func VerifPermittedAddrs() []common.Address {
+	lock.RLock()
+	defer lock.RUnlock()
+	res := make([]common.Address, 0, len(permittedAddrMap))
+	for a, ok := range permittedAddrMap {
+		if ok {
+			res = append(res, a)
+		}
+	}
+	return res
+}
+
+// VerifRestartPermitted puts the process-wide sender state back to what it is at process start.
+func VerifRestartPermitted() {
+	lock.Lock()
+	defer lock.Unlock()
+	permittedAddrMap = make(map[common.Address]bool)
+	lastTime = 0
+}
+
+// VerifLastRefresh returns the time (unix seconds) of the last refresh of the permitted address map, 0 if none.
+func VerifLastRefresh() int64 {
+	lock.RLock()
+	defer lock.RUnlock()
+	return lastTime
+}
+
+// VerifSetLastRefresh overwrites the time of the last refresh (to let a minute pass, or not, without waiting).
+func VerifSetLastRefresh(t int64) {
+	lock.Lock()
+	defer lock.Unlock()
+	lastTime = t
+}
+
+// VerifTxPool returns the server's pool.
+func (s *TXPoolServer) VerifTxPool() *tc.TXPool { return s.txPool }
+
+// VerifPendingHashes returns the hashes in the server's pending list.
+func (s *TXPoolServer) VerifPendingHashes() []common.Uint256 {
+	s.mu.RLock()
+	defer s.mu.RUnlock()
+	res := make([]common.Uint256, 0, len(s.allPendingTxs))
+	for h := range s.allPendingTxs {
+		res = append(res, h)
+	}
+	return res
+}
+
+// VerifSlots returns the number of free admission slots.
+func (s *TXPoolServer) VerifSlots() int { return len(s.slots) }
+
+// VerifHeight returns the height the server currently verifies against.
+func (s *TXPoolServer) VerifHeight() uint32 { return s.getHeight() }
+
+// VerifBacklog returns the number of messages queued in worker channels plus entries in worker pending lists.
+func (s *TXPoolServer) VerifBacklog() (queued int, verifying int) {
+	for i := range s.workers {
+		w := &s.workers[i]
+		queued += len(w.rcvTXCh) + len(w.stfTxCh) + len(w.rspCh)
+		w.mu.RLock()
+		verifying += len(w.pendingTxList)
+		w.mu.RUnlock()
+	}
+	return
+}
